@@ -243,3 +243,21 @@ Fixpoint interval_changes (cur_l cur_iv : Z) (us : list (Z * Z)) : Z :=
   | [] => 0
   | (l, iv) :: r => (if iv =? cur_iv then 0 else 1) + interval_changes l iv r
   end.
+
+(* ---- Overloader.Update on a rate limiter pointer ----
+   overloader.go updateTotalQPSLimiter: MaxTotalQPS <= 0 -> totalQPSLimiter = nil;
+   nil -> newQPSLimiter(max, interval) (a FRESH bucket: tokens = limit = max);
+   otherwise qpsLimiter.update(max, interval): limit and once are stored, the tokens are
+   NOT touched (and nothing at all happens when both values are unchanged).
+   updateHandlerLimiter does the same per service method (an entry missing from the new
+   configuration is deleted; maxq <= 0 stands for "missing" here).
+   None = Go panics (once_of: interval 0 or above one second). *)
+Definition ov_update (cur : option bucket) (maxq interval_ns : Z) : option (option bucket) :=
+  if maxq <=? 0 then Some None
+  else match once_of maxq interval_ns with
+       | None => None
+       | Some o => Some (Some (match cur with
+                               | None => mkB maxq maxq o
+                               | Some b => mkB (b_tokens b) maxq o
+                               end))
+       end.
